@@ -118,6 +118,10 @@ pub enum Op {
     Readapt(usize),
     /// insert an idle callback (which itself may act when it runs)
     InsertIdle,
+    /// executor: schedule a future that stays pending until its gate is opened
+    SchedulePending(usize),
+    /// executor: open the gate of the k-th pending task and wake it
+    CompleteTask(usize, u8),
 }
 
 #[derive(Clone, Debug)]
@@ -144,6 +148,10 @@ pub struct Cfg {
     pub top_clone: bool,
     pub top_release: bool,
     pub cb_idle: bool,
+    pub exec_pending: bool,
+    /// every violation found by this driver also counts against this property (C08: "has the
+    /// effect it would have outside a dispatch" is judged by all the other monitors)
+    pub tag_all: Option<&'static str>,
     pub end_order_choice: bool,
     pub update_disabled: bool,
     pub cb_remove: bool,
@@ -192,6 +200,8 @@ impl Cfg {
             top_clone: false,
             top_release: false,
             cb_idle: false,
+            exec_pending: false,
+            tag_all: None,
             end_order_choice: false,
             update_disabled: false,
             cb_remove: true,
@@ -234,6 +244,11 @@ pub struct MA {
     pub senders: u8,
     pub next_msg: u8,
     pub closed_delivered: bool,
+    /// executor: tasks in the order their runnables sit in the incoming queue: (value, gate?)
+    pub runq: VecDeque<u8>,
+    /// executor: per task value: (is gated, gate open, has been polled while pending)
+    pub tasks: Vec<(u8, bool, bool, bool)>,
+    pub exec_pe_seen: u32,
     /// channel: its eventfd was written when pe_reg_seq was this value (drained by a later
     /// registered process_events)
     pub sig_at: Option<u32>,
@@ -277,6 +292,8 @@ pub struct Rt {
     pub async_key: Option<u64>,
     pub async_fd: Option<i32>,
     pub destroyed_checked: bool,
+    /// executor: gates of pending tasks: (value, open flag, waker slot)
+    pub gates: Vec<(u8, Rc<std::cell::Cell<bool>>, Rc<RefCell<Option<std::task::Waker>>>)>,
 }
 
 pub enum Payload {
@@ -406,6 +423,9 @@ impl Ctx {
             senders: 0,
             next_msg: (id as u8) * 16,
             closed_delivered: false,
+            runq: VecDeque::new(),
+            tasks: vec![],
+            exec_pe_seen: 0,
             sig_at: None,
             deadline: None,
             armed: false,
@@ -439,6 +459,7 @@ impl Ctx {
             async_key: None,
             async_fd: None,
             destroyed_checked: false,
+            gates: vec![],
         };
         let guard = CbGuard(track.clone());
         let res: Result<RegistrationToken, String> = match spec {
@@ -503,6 +524,7 @@ impl Ctx {
                 let (exec, sched) = calloop::futures::executor::<u8>().expect("executor");
                 let (a, b) = std::os::unix::net::UnixStream::pair().expect("socketpair");
                 rt.peer = Some(b);
+                rt.async_fd = Some(a.as_raw_fd());
                 let r = self
                     .h
                     .insert_source(Tracked::new(exec, track.clone()), move |v, _, ctx: &mut Ctx| {
@@ -709,8 +731,20 @@ impl Ctx {
                     }
                 }
                 KindSpec::Exec => {
-                    if a.q.len() < 3 {
-                        v.push(Op::Cause(i))
+                    if a.tasks.len() < 4 {
+                        v.push(Op::Cause(i));
+                        if c.exec_pending {
+                            v.push(Op::SchedulePending(i));
+                        }
+                    }
+                    if c.exec_pending {
+                        let mut k = 0u8;
+                        for t in a.tasks.iter() {
+                            if t.1 && !t.2 {
+                                v.push(Op::CompleteTask(i, k));
+                                k += 1;
+                            }
+                        }
                     }
                 }
                 KindSpec::Timer(_) | KindSpec::Async | KindSpec::ExecIo => {}
@@ -869,15 +903,27 @@ impl Ctx {
         let mut drain_fd = false;
         match p {
             Payload::Exec(v) => {
-                let front = self.m[id].q.front().copied();
-                if front != Some(v) {
-                    self.violate(&["C01", "C10"], "callback-without-cause", &[("kind", kind.into())],
-                        format!("executor {id} delivered output {v} but the next scheduled task is {front:?}"));
-                    if let Some(pos) = self.m[id].q.iter().position(|&x| x == v) {
-                        self.m[id].q.remove(pos);
+                // the executor runs its queue in order: tasks whose gate is closed are polled
+                // (and park), the first completable one must be the output we were handed
+                let mut expected = None;
+                loop {
+                    let Some(t) = self.m[id].runq.pop_front() else { break };
+                    let a = &mut self.m[id];
+                    let Some(idx) = a.tasks.iter().position(|x| x.0 == t) else { continue };
+                    if a.tasks[idx].2 {
+                        expected = Some(t);
+                        a.tasks.remove(idx);
+                        break;
+                    } else {
+                        a.tasks[idx].3 = true;
                     }
-                } else {
-                    self.m[id].q.pop_front();
+                }
+                if expected != Some(v) {
+                    self.violate(&["C01", "C10"], "callback-without-cause", &[("kind", kind.into())],
+                        format!("executor {id} delivered output {v} but the next completable task in its queue is {expected:?}"));
+                    let a = &mut self.m[id];
+                    a.tasks.retain(|x| x.0 != v);
+                    a.runq.retain(|x| *x != v);
                 }
             }
             Payload::Ping => {
@@ -1216,6 +1262,29 @@ impl Ctx {
     /// Implicit removals the model cannot see through a callback: a ping source whose close
     /// was consumed by a `process_events` that started after the close was written.
     fn sync_implicit(&mut self) {
+        // executor: a process_events call that has finished since we last looked has run the whole
+        // incoming queue: every task whose gate is still closed was polled and now waits for a wake
+        for i in 0..self.m.len() {
+            if self.m[i].spec != KindSpec::Exec {
+                continue;
+            }
+            let tr = self.rt[i].track.clone();
+            let seq = tr.pe_reg_seq.get();
+            if seq > self.m[i].exec_pe_seen && !tr.in_pe.get() {
+                let a = &mut self.m[i];
+                a.exec_pe_seen = seq;
+                let left: Vec<u8> = a.runq.drain(..).collect();
+                for t in left {
+                    if let Some(x) = a.tasks.iter_mut().find(|x| x.0 == t) {
+                        if x.2 {
+                            a.runq.push_back(t);
+                        } else {
+                            x.3 = true;
+                        }
+                    }
+                }
+            }
+        }
         for i in 0..self.m.len() {
             let a = &self.m[i];
             if let (KindSpec::Ping, Some(at), true) = (a.spec, a.close_at, a.alive) {
@@ -1397,7 +1466,8 @@ impl Ctx {
                         self.m[j].next_msg = v.wrapping_add(1);
                         let r = self.rt[j].sched.as_ref().unwrap().schedule(async move { v });
                         if r.is_ok() {
-                            self.m[j].q.push_back(v);
+                            self.m[j].tasks.push((v, false, true, false));
+                            self.m[j].runq.push_back(v);
                             self.m[j].sig_at = Some(self.rt[j].track.pe_reg_seq.get());
                         } else {
                             self.violate(&["C10"], "schedule-failed", &[], format!("schedule() on live executor {j} failed"));
@@ -1477,6 +1547,54 @@ impl Ctx {
                 } else if let Some(s) = self.rt[j].released.take() {
                     // a plain Generic over the stream that an adapter gave back
                     self.insert_stream_generic(s);
+                }
+            }
+            Op::SchedulePending(j) => {
+                let v = self.m[j].next_msg;
+                self.m[j].next_msg = v.wrapping_add(1);
+                let open = Rc::new(std::cell::Cell::new(false));
+                let slot: Rc<RefCell<Option<std::task::Waker>>> = Rc::new(RefCell::new(None));
+                let (o2, s2) = (open.clone(), slot.clone());
+                let fut = std::future::poll_fn(move |cx: &mut std::task::Context<'_>| {
+                    if o2.get() {
+                        std::task::Poll::Ready(v)
+                    } else {
+                        *s2.borrow_mut() = Some(cx.waker().clone());
+                        std::task::Poll::Pending
+                    }
+                });
+                if self.rt[j].sched.as_ref().unwrap().schedule(fut).is_ok() {
+                    self.rt[j].gates.push((v, open, slot));
+                    self.m[j].tasks.push((v, true, false, false));
+                    self.m[j].runq.push_back(v);
+                    self.m[j].sig_at = Some(self.rt[j].track.pe_reg_seq.get());
+                } else {
+                    self.violate(&["C10"], "schedule-failed", &[], format!("schedule() on live executor {j} failed"));
+                }
+            }
+            Op::CompleteTask(j, k) => {
+                // the k-th task whose gate is still closed
+                let vals: Vec<u8> = self.m[j].tasks.iter().filter(|t| t.1 && !t.2).map(|t| t.0).collect();
+                if let Some(&v) = vals.get(k as usize) {
+                    let g = self.rt[j].gates.iter().find(|g| g.0 == v).map(|g| (g.1.clone(), g.2.clone()));
+                    if let Some((open, slot)) = g {
+                        open.set(true);
+                        let w = slot.borrow_mut().take();
+                        let pe = self.rt[j].track.pe_reg_seq.get();
+                        let a = &mut self.m[j];
+                        if let Some(t) = a.tasks.iter_mut().find(|t| t.0 == v) {
+                            t.2 = true;
+                            if t.3 {
+                                // it has been polled and is waiting: the wake re-queues its runnable
+                                t.3 = false;
+                                a.runq.push_back(v);
+                                a.sig_at = Some(pe);
+                            }
+                        }
+                        if let Some(w) = w {
+                            w.wake();
+                        }
+                    }
                 }
             }
             Op::InsertIdle => {
@@ -1649,7 +1767,7 @@ impl Ctx {
             a.owed = match a.spec {
                 KindSpec::Ping => a.ping,
                 KindSpec::Chan => !a.q.is_empty() || (a.senders == 0 && !a.closed_delivered),
-                KindSpec::Exec => !a.q.is_empty(),
+                KindSpec::Exec => a.runq.iter().any(|t| a.tasks.iter().any(|x| x.0 == *t && x.2)),
                 KindSpec::Async | KindSpec::ExecIo => false,
                 KindSpec::Timer(_) => false, // decided after the wait (needs the poll time)
                 KindSpec::Fd { r, w, mode } => {
@@ -1776,6 +1894,11 @@ impl Ctx {
     // ------------------------------------------------------------------ step checks
 
     pub fn after_step(&mut self) {
+        // the kernel view is compared first: the release check below drops sources the harness
+        // still holds, and a Generic removes itself from the poller when it is dropped
+        if self.cfg.check_epoll {
+            self.check_epoll();
+        }
         // C06: released exactly once
         if self.cfg.check_release {
             self.clause("release");
@@ -1861,9 +1984,6 @@ impl Ctx {
             self.violate(&["C05"], "timer-heap-residue", &[("rearmed_in_batch", rib.to_string()), ("updated_while_disabled", uwd.to_string())],
                 format!("timer heap holds {} entries but the model has {armings} live armings", stats.timers.len()));
         }
-        if self.cfg.check_epoll {
-            self.check_epoll();
-        }
     }
 
     pub fn check_epoll(&mut self) {
@@ -1895,6 +2015,17 @@ impl Ctx {
             }
         }
         let mut used = vec![false; table.len()];
+        // the adapter owned by an ExecIo task: present as long as the executor is inserted, with
+        // whatever one-shot interest the task last asked for
+        for (i, a) in self.m.iter().enumerate() {
+            if a.alive && a.spec == KindSpec::ExecIo {
+                if let Some(fd) = self.rt[i].async_fd {
+                    if let Some(p) = table.iter().position(|e| e.fd == fd) {
+                        used[p] = true;
+                    }
+                }
+            }
+        }
         for (key, mask, fd, i) in &expected {
             let pos = table.iter().position(|e| e.data == *key);
             match pos {
@@ -2158,6 +2289,13 @@ pub fn run_history(cfg: &Rc<Cfg>, verbose: bool) -> (Outcome, Option<Vec<String>
         }
     }
     drop(rt);
+    if let Some(tag) = cfg.tag_all {
+        for v in violations.iter_mut() {
+            if !v.props.iter().any(|p| p == tag) {
+                v.props.push(tag.to_string());
+            }
+        }
+    }
     let out = Outcome {
         violations,
         fingerprint: fp,
